@@ -756,6 +756,41 @@ func runC14(h *Harness) {
 		}
 		hist = append(hist, "concurrent twins: a="+errStr(hsA.Err)+" b="+errStr(hsB.Err))
 	}
+	// an answer past its lifetime while its renewal is in flight: a 'good' with nextUpdate in 3 minutes (lifetime 18
+	// minutes), read again inside the lifetime, then - past the lifetime - the responder says 'revoked' and is slow: the
+	// handshake that renews it waits for the answer, and a second handshake for the same certificate arrives meanwhile.
+	// The expired 'good' decides for neither of them.
+	if len(h.R.Violations) == 0 && tp.Chance(1, 2) {
+		n := nodes[0]
+		respR := w.NewResponder("http://ocsp.sim/renewal", w.A)
+		respR.NextUpdate, respR.Status = 3*time.Minute, rGood
+		cR := w.A.Issue(EEOpts{CN: "renewed", Serial: big.NewInt(0x5252), OCSP: []string{respR.URL}, CDP: []string{}})
+		first := h.Handshake(n, "renewal-fill", w.ChainFor(cR, w.A))
+		inside := Pick(tp, 5*time.Minute, 10*time.Minute, 17*time.Minute)
+		h.Settle(inside)
+		again := h.Handshake(n, "renewal-read-inside-lifetime", w.ChainFor(cR, w.A))
+		// 30 s to 5 min past the lifetime, and less than a lifetime after the last read (a cache that slides its
+		// expiry on every read still holds the entry)
+		h.Settle(18*time.Minute - inside + Pick(tp, 30*time.Second, 5*time.Minute))
+		respR.Status, respR.Slow = rRevoked, Pick(tp, 3*time.Second, 8*time.Second)
+		hits := respR.Hits
+		hsA := h.StartHandshake(n, "renewal-a", w.ChainFor(cR, w.A))
+		h.S.Run(func(v schedView) bool { return respR.Hits > hits || hsA.Task.done }, h.S.Now()+time.Minute)
+		hsB := h.StartHandshake(n, "renewal-b", w.ChainFor(cR, w.A))
+		h.Wait(hsA.Task, hsB.Task)
+		respR.Slow = 0
+		h.R.Checks += 2
+		h.R.NonTrivial = true
+		if first.Err == nil && again.Err == nil {
+			for name, x := range map[string]*HS{"the renewing handshake": hsA, "a second handshake arriving while the renewal was in flight": hsB} {
+				if x.Err == nil {
+					h.Violation("C14.lifetime-exceeded", "expired-served-during-renewal", "an answer 'good' whose lifetime (nextUpdate + 15 min) had ended 30 s to 5 min before was what decided for %s: the responder says 'revoked' (slow answer), the handshake was accepted (strict=%v)", name, strict)
+					break
+				}
+			}
+		}
+		hist = append(hist, "renewal in flight: a="+errStr(hsA.Err)+" b="+errStr(hsB.Err))
+	}
 	if len(hist) > 14 {
 		hist = append(hist[:14], "...")
 	}
